@@ -43,6 +43,10 @@ func (c *Conn) Sendfile(f *os.File, remain int64) (int64, error) {
 	if (remain <= 0) || (remain > size-offset) {
 		remain = size - offset
 	}
+	// nothing to send: the file position is at or beyond the end of the file.
+	if remain <= 0 {
+		return 0, nil
+	}
 
 	// f.Fd() will set the fd to blocking mod.
 	// We need to set the fd to non-blocking mod again.
